@@ -343,7 +343,11 @@ def run(ctx):
             for k in range(npairs):
                 if k % 3 == 2 and ignored:
                     a = gen_nb.gen_notebook(rng, ncells=rng.choice([1, 2, 3, 4]))
-                    cases.append(('only-ignored', a, edit_only_ignored(rng, a, ignored), ['only-ignored']))
+                    tag = 'only-ignored'
+                    if rng.random() < 0.3 and gen_nb.inflate(rng, a):
+                        tag = 'only-ignored-big'
+                        ctx.count('payload beyond the comparison length')
+                    cases.append((tag, a, edit_only_ignored(rng, a, ignored), ['only-ignored']))
                 else:
                     a, b, kinds = gen_nb.pair(rng)
                     cases.append(('generated', a, b, kinds))
